@@ -36,6 +36,16 @@ pub use error::Error;
 pub use watchpoint::WatchpointView;
 pub use watchpoint::WatchpointViewOwned;
 
+/// Re-exports of crate-private items for the verification harness.
+#[cfg(feature = "verif")]
+pub mod verif_exports {
+    pub use super::breakpoint::{Breakpoint, BreakpointRegistry, BrkptType};
+    pub use super::debugee::dwarf::verif_utils::PathSearchIndex;
+    pub use super::debugee::tracee::{StopType, TraceeCtl, TraceeStatus};
+    pub use super::debugee::tracer::{StopReason, TraceContext, Tracer, WatchpointHitType};
+    pub use super::watchpoint::WatchpointRegistry;
+}
+
 use crate::debugger::Error::Syscall;
 use crate::debugger::address::{Address, GlobalAddress, RelocatedAddress};
 use crate::debugger::breakpoint::{Breakpoint, BreakpointRegistry, BrkptType, UninitBreakpoint};
